@@ -810,3 +810,20 @@ Proof.
   intros E. pose proof (run_same_ctx W wr wd fuel tpl ae depth ch ip s o) as H.
   rewrite E in H. exact H.
 Qed.
+
+(* both channels of render_component enter the component chunk at component_recursion_depth 0:
+   the writer variant by definition of tera_render_component_to, the String variant because it is
+   that same function on a Vec<u8> (the engine side of this is the channel-agreement oracle swept
+   across MAX_COMPONENT_RECURSION_DEPTH) *)
+Lemma component_channels_same_depth wd fuel comp src supplied body ae def cchunk cctx :
+  assoc_get (w_components wd) comp = Some (def, cchunk) ->
+  w_build_ctx wd def supplied (option_map (fun b => VStr b true) body) = ROk cctx ->
+  (forall (W : Type) (wr : W -> str -> option W) (w : W),
+     tera_render_component_to W wr wd fuel comp src supplied body ae w
+     = run W wr wd fuel src (Some ae) 0 cchunk 0 (new_state cctx) (SinkTop w)) /\
+  tera_render_component wd fuel comp src supplied body ae
+  = res_of_run (run str wr_str wd fuel src (Some ae) 0 cchunk 0 (new_state cctx) (SinkTop [])).
+Proof.
+  intros Hc Hb. unfold tera_render_component, tera_render_component_to. rewrite Hc, Hb.
+  split; [intros; reflexivity|reflexivity].
+Qed.
